@@ -124,6 +124,8 @@ class OpsMixin:
             return self.ctx.branch(f(v.t), tag + ":truthy")
         if isinstance(v, SReal):
             raise PyRaise("TracerBoolConversionError", (), where=tag)
+        if hasattr(v, "pyvc_getattr"):
+            return True             # a contract-side record object (plain Python object without __bool__/__len__)
         raise Unsupported(f"truth of {type(v).__name__}")
 
     # ------------------------------------------------------------------ arithmetic
@@ -713,8 +715,14 @@ class OpsMixin:
                 raise PyRaise("IndexError", ())
         if isinstance(o, dict):
             kk = self.hashable(k)
-            if kk in o:
-                return o[kk]
+            if _plain(kk) and all(_plain(x) for x in o):
+                if kk in o:
+                    return o[kk]
+                raise PyRaise("KeyError", (k,))
+            for x in list(o.keys()):          # symbolic keys: look the key up by (symbolic) equality
+                if x is kk or (not (_plain(x) and _plain(kk)) and self.truth(self.py_eq(x, kk), tag="dict-key-eq")) or \
+                        (_plain(x) and _plain(kk) and x == kk):
+                    return o[x]
             raise PyRaise("KeyError", (k,))
         if isinstance(o, TupleT):
             if isinstance(k, int) and 0 <= k < len(o.head):
@@ -793,7 +801,16 @@ class OpsMixin:
                 o[k] = v
                 return
         if isinstance(o, dict):
-            o[self.hashable(k)] = v
+            hk = self.hashable(k)
+            if not _plain(hk) or not all(_plain(kk) for kk in o):
+                # symbolic key: it may equal a key that is already present (then that entry is replaced)
+                for kk in list(o.keys()):
+                    if _plain(kk) and _plain(hk):
+                        continue
+                    if self.truth(self.py_eq(kk, hk), tag="dict-key-eq"):
+                        o[kk] = v
+                        return
+            o[hk] = v
             return
         if isinstance(o, Obj):
             self.call_method(o, "__setitem__", [k, v], {})
